@@ -43,20 +43,31 @@ func ParseIdentity(
 			return nil, err
 		}
 
-		if password != "" {
-			for _, identity := range identities {
-				if identity.PrivateKey == nil {
+		// Generated keys are locked with their password even if it is empty; a key that is not locked has no password
+		for _, identity := range identities {
+			if identity.PrivateKey == nil {
+				return nil, config.ErrIdentityUnparsable
+			}
+
+			if !identity.PrivateKey.Encrypted {
+				if password != "" {
 					return nil, config.ErrIdentityUnparsable
 				}
 
-				if err := identity.PrivateKey.Decrypt([]byte(password)); err != nil {
-					return nil, err
+				continue
+			}
+
+			if err := identity.PrivateKey.Decrypt([]byte(password)); err != nil {
+				return nil, err
+			}
+
+			for _, subkey := range identity.Subkeys {
+				if subkey.PrivateKey == nil || !subkey.PrivateKey.Encrypted {
+					continue
 				}
 
-				for _, subkey := range identity.Subkeys {
-					if err := subkey.PrivateKey.Decrypt([]byte(password)); err != nil {
-						return nil, err
-					}
+				if err := subkey.PrivateKey.Decrypt([]byte(password)); err != nil {
+					return nil, err
 				}
 			}
 		}
